@@ -396,25 +396,31 @@ impl Runner {
         self.world.cached_keys(&self.candidates)
     }
 
+    /// A new watcher (never asked) on the cached asset, and the asset's current reload id
+    pub fn new_watcher(&self, key: &AKey) -> Option<(ReloadWatcher<'static>, ReloadId)> {
+        let any = self.world.any();
+        let (kind, id) = key;
+        macro_rules! w {
+            ($t:ty) => {
+                any.get_cached::<$t>(id).map(|h| (h.reload_watcher(), h.last_reload_id()))
+            };
+        }
+        match kind {
+            Kind::Leaf => w!(world::Leaf),
+            Kind::LeafS => w!(world::LeafS),
+            Kind::N0 => w!(world::N0),
+            Kind::N1 => w!(world::N1),
+            Kind::NS => w!(world::NS),
+            Kind::Dir => w!(assets_manager::Directory<world::Leaf>),
+            Kind::Rec => w!(assets_manager::RecursiveDirectory<world::Leaf>),
+        }
+    }
+
     pub fn refresh_watches(&mut self) {
         for key in self.cached() {
             if !self.watches.contains_key(&key) {
                 let any = self.world.any();
-                let (kind, id) = &key;
-                macro_rules! w {
-                    ($t:ty) => {
-                        any.get_cached::<$t>(id).map(|h| (h.reload_watcher(), h.last_reload_id()))
-                    };
-                }
-                let got = match kind {
-                    Kind::Leaf => w!(world::Leaf),
-                    Kind::LeafS => w!(world::LeafS),
-                    Kind::N0 => w!(world::N0),
-                    Kind::N1 => w!(world::N1),
-                    Kind::NS => w!(world::NS),
-                    Kind::Dir => w!(assets_manager::Directory<world::Leaf>),
-                    Kind::Rec => w!(assets_manager::RecursiveDirectory<world::Leaf>),
-                };
+                let got = self.new_watcher(&key);
                 if let Some((watcher, last_id)) = got {
                     // start from a clean global flag (the asset may have been cached and re-loaded within one step)
                     if !self.watches.is_empty() {
